@@ -21,10 +21,10 @@ UNITS = [
     U("remove", "h_remove", "w_List_remove", ["remove.middle", "remove.only"]),
     U("swap", "h_swap", "w_List_swap", ["swap.empty_with_full", "swap.full_with_full"]),
     B("copy+dtor.bounded", "h_b_copy", ["b_copy.return"]),
-    B("assign.bounded", "h_b_assign", ["b_assign.other"], defs=["NV_ALIAS=0"]),
-    B("assign@self.bounded", "h_b_assign", ["b_assign.self"], defs=["NV_ALIAS=1"]),
+    B("assign.bounded", "h_b_assign", ["b_assign.other"], defs=["NV_ALIAS=0", "NV_BK=2"], bound="lists of at most 2 elements, values symbolic", timeout=1500),
+    B("assign@self.bounded", "h_b_assign", ["b_assign.self"], defs=["NV_ALIAS=1", "NV_BK=2"], bound="lists of at most 2 elements, values symbolic", timeout=1500),
     B("clear+find+eq.bounded", "h_b_clear_find_eq", ["b_clear_find_eq.return"]),
-    B("sort.bounded", "h_b_sort", ["b_sort.return"]),
+    B("sort.bounded", "h_b_sort", ["b_sort.return"], object_bits=10, timeout=1500),
     B("append_list.bounded", "h_b_append_list", ["b_append_list.return"]),
 ]
 TRUSTED = ["cbmc 6.11.0 / goto-instrument DFCC / CaDiCaL", "goto-cc C++ front end; List.hpp with compat rule R1"]
